@@ -169,20 +169,24 @@ def _count_walls(cell, walls, value, counts_equal):
     (ZM-VFNS cells keep the matching scales symbolic) are resolved through the cell's number of flavours."""
     ws = [S.num_norm(w) for w in (walls.data if isinstance(walls, S.Arr) else walls)]
     v = S.num_norm(value)
-    if any(isinstance(w, A.Rat) for w in ws) or isinstance(v, A.Rat):
-        concrete = [w for w in ws if not isinstance(w, A.Rat)]
-        if not isinstance(v, A.Rat) and not any(isinstance(w, A.Rat) for w in ws):
-            pass
-        elif cell.nf is not None and ws and ws[0] == 0 and S.is_inf(ws[-1]):
-            return cell.nf - 2  # walls [0, c, b, t, inf]: nf = 2 + count
-        else:
-            raise Undecided("position of a symbolic scale among symbolic walls")
     n = 0
+    symbolic = False
     for w in ws:
         if S.is_inf(w):
             continue
-        if w < v or (counts_equal and w == v):
+        if isinstance(w, A.Rat):
+            symbolic = True
+        elif isinstance(v, A.Rat):
+            if w == 0:
+                n += 1  # the scale is a positive Q2: the wall at 0 is always passed (as in nf_default above)
+            else:
+                symbolic = True
+        elif w < v or (counts_equal and w == v):
             n += 1
+    if symbolic:
+        if cell.nf is not None and ws and ws[0] == 0 and S.is_inf(ws[-1]):
+            return cell.nf - 2  # walls [0, c, b, t, inf]: nf = 2 + count
+        raise Undecided("position of a symbolic scale among symbolic walls")
     return n
 
 
